@@ -98,6 +98,17 @@ def near(v, rnd):
     return v
 
 
+def twin(v):
+    """a value that compares equal to v but is of another Python type (1 / 1.0 / True), else None"""
+    if isinstance(v, bool):
+        return int(v)
+    if isinstance(v, int) and abs(v) < 10 ** 15:
+        return float(v)
+    if isinstance(v, float) and v == v and abs(v) < 10 ** 15 and v == int(v):
+        return int(v)
+    return None
+
+
 def pick_value(cls, rnd, valid=True):
     vt = value_type_of(cls)
     if vt is None:
@@ -401,6 +412,99 @@ REPEATED = {k: _repeated(k) for k in TREE}
 HARD = [c for k in TREE if k in CLASSES_OF and (CLASS_OF_TYPE[k] == 'wild' or REPEATED[k]) for c in CLASSES_OF[k]]
 
 
+# ---- twin documents: the same element class twice in one document, holding values of different kinds
+def _leaf_flags(tree, rep=False, out=None):
+    out = [] if out is None else out
+    r = rep or tree.get('max') is None or (tree.get('max') or 1) > 1
+    if tree['k'] == 'e':
+        out.append((tree['name'], r))
+    else:
+        for c in tree.get('ps', []):
+            _leaf_flags(c, r, out)
+    return out
+
+
+PARENTS_OF = {}      # child element name -> [(parent class, the child can occur more than once in it)]
+for _k, _t in TREE.items():
+    for _n, _r in _leaf_flags(_t):
+        for _c in CLASSES_OF.get(_k, []):
+            PARENTS_OF.setdefault(_n, []).append((_c, _r))
+_twin_memo = {}
+
+
+def twin_context(cls, depth=3):
+    """(ancestor class A, chain of classes from A's child down to cls) such that the chain's head can occur
+    twice under A; None when there is none within `depth` levels"""
+    key = (cls, depth)
+    if key in _twin_memo:
+        return _twin_memo[key]
+    res = None
+    frontier = [[cls]]
+    for _ in range(depth):
+        nxt = []
+        for chain in frontier:
+            for (P, rep) in PARENTS_OF.get(chain[0].XSD_TREE.name, []):
+                if rep:
+                    res = (P, chain)
+                    break
+                if P not in chain:
+                    nxt.append([P] + chain)
+            if res:
+                break
+        if res:
+            break
+        frontier = nxt[:200]
+    _twin_memo[key] = res
+    return res
+
+
+def value_kind(v):
+    return 'empty' if v == '' else type(v).__name__
+
+
+VALUE_CLASSES = [c for c in ALL if value_type_of(c)]
+
+
+def twin_case(w, rnd, nid):
+    """returns the id of a document in which one simple-content class occurs twice with values of different
+    kinds ('' / str / int / float), or None"""
+    for _ in range(6):
+        cls = rnd.choice(VALUE_CLASSES)
+        pool = valid_values(value_type_of(cls), rnd)
+        kinds = {}
+        for v in pool:
+            kinds.setdefault(value_kind(v), []).append(v)
+        ctx = twin_context(cls)
+        if ctx and len(kinds) >= 2:
+            break
+    else:
+        return None
+    A, chain = ctx
+    k1, k2 = rnd.sample(sorted(kinds), 2)
+    vals = [rnd.choice(kinds[k1]), rnd.choice(kinds[k2])]
+    if rnd.random() < 0.3:
+        vals.append(rnd.choice(kinds[k1]))
+    a = build_tree(w, rnd, A, 0, nid, True, True, False)
+    if a is None:
+        return None
+    for v in vals:
+        ids = []
+        for c in chain[:-1]:
+            j = build_tree(w, rnd, c, 0, nid, True, True, False)
+            if j is None:
+                return a
+            ids.append(j)
+        j = nid[0]; nid[0] += 1
+        m, r = w.newe(j, chain[-1], True, v, pick_attrs(chain[-1], rnd, True, 0))
+        if r != 'ok':
+            return a
+        ids.append(j)
+        for x, y in zip(reversed(ids[:-1]), reversed(ids[1:])):
+            w.add(x, y)
+        w.add(a, ids[0])
+    return a
+
+
 REPEATED_CLASSES = [c for k in TREE if k in CLASSES_OF and REPEATED[k] for c in CLASSES_OF[k]]
 
 
@@ -434,7 +538,11 @@ def scratch_case(w, rnd, nid):
         nid[0] += 2
         q = rnd.random()
         if q < 0.45:
-            w.dotx(i, key, nid[0] - 1, pick_value(ccls, rnd, True))
+            v = pick_value(ccls, rnd, True)
+            w.dotx(i, key, nid[0] - 1, v)
+            if twin(v) is not None and rnd.random() < 0.5:
+                nid[0] += 1
+                w.dotx(i, key, nid[0] - 1, twin(v))
         elif q < 0.7:
             m1, r1 = w.newe(nid[0] - 2, ccls, True, pick_value(ccls, rnd, True), [])
             if r1 == 'ok' and m1 == 'ok':
@@ -446,7 +554,7 @@ def scratch_case(w, rnd, nid):
         w.tostr(i, rnd.random() < 0.3)
 
 
-def doc_case(drv, rnd, cls=None, depth=2, mixed_chk=False, mutate=True, copy=False, dots=True, roots=1, reuse=False, sandwich=False, scratch=False):
+def doc_case(drv, rnd, cls=None, depth=2, mixed_chk=False, mutate=True, copy=False, dots=True, roots=1, reuse=False, sandwich=False, scratch=False, twins=False):
     """one generated document + a few mutations + serialisations; returns the World"""
     w = World(drv)
     cls = cls or rnd.choice(ALL)
@@ -493,6 +601,12 @@ def doc_case(drv, rnd, cls=None, depth=2, mixed_chk=False, mutate=True, copy=Fal
         r2 = build_tree(w, rnd, c2, max(0, depth - 1), nid, True, True, mixed_chk)
         if r2 is not None:
             others.append(r2)
+    if twins:
+        nid2 = [max(nid[0], 20000)]
+        t = twin_case(w, rnd, nid2)
+        if t is not None:
+            w.tostr(t)
+            others.append(t)
     ids = list(w.objs)
     detached = []
     if mutate:
@@ -522,7 +636,11 @@ def doc_case(drv, rnd, cls=None, depth=2, mixed_chk=False, mutate=True, copy=Fal
                 else:
                     w.attr(i, rnd.choice(['font_size', 'id', 'foo', 'number']), rnd.choice([1, 'a', None]))
             elif r < 0.5:
-                w.setval(i, pick_value(type(o), rnd, rnd.random() < 0.7))
+                v = pick_value(type(o), rnd, rnd.random() < 0.7)
+                w.setval(i, v)
+                if twin(v) is not None and rnd.random() < 0.4:
+                    w.setval(i, twin(v))
+                    w.tostr(i)
             elif r < 0.6 and o.get_children(ordered=False):
                 ch = rnd.choice(o.get_children(ordered=False))
                 inv = {id(x): k for k, x in w.objs.items()}
@@ -589,6 +707,11 @@ def doc_case(drv, rnd, cls=None, depth=2, mixed_chk=False, mutate=True, copy=Fal
                 else:
                     v = pick_value(ccls, rnd, rnd.random() < 0.8) if ccls is not None else 1
                     w.dotx(i, key, fresh1, v)
+                    if twin(v) is not None and rnd.random() < 0.5:
+                        # the same number in the other numeric type: must be validated and stored like any new value
+                        nid[0] += 1
+                        w.dotx(i, key, nid[0] - 1, twin(v))
+                        w.tostr(i)
                 w.obs(i)
                 ids[:] = list(w.objs)
             elif r < 0.87 and type(o).TYPE.__name__ in containers and o.xsd_check:
